@@ -9,7 +9,13 @@
        several pages — of one process or of several processes sharing the
        physical page — have it: the specification leaves that choice free, one
        transition per admissible answer), and "not found" otherwise;
-     * a checkpoint save/load round trip changes nothing.
+     * a checkpoint save/load round trip changes nothing, whatever object the
+       checkpoint is loaded into: a fresh table (`ckpt`), the SAME live table
+       after it kept operating (`save` ... `rollback`), or ANOTHER table that has
+       already been used with other contents (`load_into_used`).  With
+       Snapshots = TRUE the saved contents are part of the state (`snap`, one
+       outstanding snapshot; a new save replaces it); after a rollback /
+       load_into_used the table equals the snapshot for every later operation.
    Misuse the statement is silent about (insert of a present key, update/remove
    of an absent key) is emitted with `free |-> TRUE`: the real object refuses
    (panics) today; the replay only insists that a refused operation leaves the
@@ -20,9 +26,9 @@
    history several times (same OS process, separate OS processes, before/after
    checkpoint) and compares all answers.                                      *)
 EXTENDS Integers, Sequences, FiniteSets, TLC, Json
-CONSTANTS NP, NV, NPA, PageVals, Offs
-VARIABLES tbl, last
-vars == <<tbl, last>>
+CONSTANTS NP, NV, NPA, PageVals, Offs, Snapshots
+VARIABLES tbl, snap, last
+vars == <<tbl, snap, last>>
 
 PIDs == 1..NP          \* processes
 VPs  == 1..NV          \* virtual pages (the driver maps v to a page-aligned address)
@@ -31,12 +37,15 @@ NoPage   == [pa |-> 0, dev |-> 0]
 \* PageVals (a constant): the page contents used; dev stands for all the other fields of a page
 PagesFull  == [pa : PAs, dev : {1, 2}]
 PagesSmall == {[pa |-> 1, dev |-> 1], [pa |-> 2, dev |-> 1], [pa |-> 1, dev |-> 2]}
+PagesTwo   == {[pa |-> 1, dev |-> 1], [pa |-> 2, dev |-> 2]}
+NoSnap == <<>>         \* no checkpoint has been saved
 ASSUME PageVals \subseteq [pa : PAs, dev : {1, 2}]
 
-St  == [tbl |-> tbl]
-St2 == [tbl |-> tbl']
+St  == IF Snapshots THEN [tbl |-> tbl, snap |-> snap] ELSE [tbl |-> tbl]
+St2 == IF Snapshots THEN [tbl |-> tbl', snap |-> snap'] ELSE [tbl |-> tbl']
 
 Init == /\ tbl = [p \in PIDs |-> [v \in VPs |-> NoPage]]
+        /\ snap = NoSnap
         /\ last = [op |-> "new", arg |-> 0, res |-> 0, free |-> FALSE]
         /\ PrintT(<<"INIT", ToJson(St)>>)
 
@@ -47,6 +56,7 @@ NotFound == [found |-> FALSE, pid |-> 0, v |-> 0, pa |-> 0, dev |-> 0]
 Op(o, a, r)     == last' = [op |-> o, arg |-> a, res |-> r, free |-> FALSE]
 Misuse(o, a)    == last' = [op |-> o, arg |-> a, res |-> "refused", free |-> TRUE]
 Same == UNCHANGED tbl
+KeepSnap == UNCHANGED snap
 Key(p, v) == [pid |-> p, v |-> v]
 KeyPage(p, v, g) == [pid |-> p, v |-> v, pa |-> g.pa, dev |-> g.dev]
 
@@ -71,23 +81,40 @@ ReverseLookup(a) == /\ Same
 (* SaveCheckpoint, then LoadCheckpoint into a freshly built table that replaces the object *)
 Ckpt == Same /\ Op("ckpt", 0, "ok")
 
-Next == \/ Ckpt
-        \/ \E p \in PIDs, v \in VPs :
-              \/ Remove(p, v)
-              \/ \E g \in PageVals : Insert(p, v, g) \/ Update(p, v, g)
-              \/ \E off \in Offs : Find(p, v, off)
-        \/ \E a \in PAs : ReverseLookup(a)
+(* SaveCheckpoint: the saved contents stay available (one outstanding snapshot) *)
+Save == /\ Snapshots /\ Same /\ snap' = tbl /\ Op("save", 0, "ok")
+(* the table keeps operating after the save; then LoadCheckpoint of the snapshot into the SAME live object *)
+Rollback == /\ Snapshots /\ snap # NoSnap
+            /\ tbl' = snap /\ KeepSnap /\ Op("rollback", 0, "ok")
+(* LoadCheckpoint of the snapshot into ANOTHER table object that has been operated on with other
+   contents for every process, most recently for process p; that object replaces the table *)
+LoadIntoUsed(p) == /\ Snapshots /\ snap # NoSnap
+                   /\ tbl' = snap /\ KeepSnap /\ Op("load_into_used", p, "ok")
+
+Next == \/ /\ KeepSnap
+           /\ \/ Ckpt
+              \/ \E p \in PIDs, v \in VPs :
+                    \/ Remove(p, v)
+                    \/ \E g \in PageVals : Insert(p, v, g) \/ Update(p, v, g)
+                    \/ \E off \in Offs : Find(p, v, off)
+              \/ \E a \in PAs : ReverseLookup(a)
+        \/ Save \/ Rollback
+        \/ \E p \in PIDs : LoadIntoUsed(p)
 Spec == Init /\ [][Next]_vars
 
-View == tbl
+View == <<tbl, snap>>
 Emit == PrintT(<<"EDGE", ToJson([s |-> St, a |-> last', t |-> St2])>>)
 
 ---------------------------------------------------------------------------
 (* properties of the specification itself *)
-TypeOK == tbl \in [PIDs -> [VPs -> PageVals \cup {NoPage}]]
+Tables == [PIDs -> [VPs -> PageVals \cup {NoPage}]]
+TypeOK == /\ tbl \in Tables
+          /\ snap = NoSnap \/ snap \in Tables
+          /\ Snapshots \/ snap = NoSnap
 
-(* only the addressed key changes, and only by insert / update / remove *)
-MapStep == [][\A p \in PIDs, v \in VPs :
+(* only the addressed key changes, and only by insert / update / remove (restores aside) *)
+Restores == {"rollback", "load_into_used"}
+MapStep == [][last'.op \notin Restores => \A p \in PIDs, v \in VPs :
                  tbl'[p][v] # tbl[p][v] =>
                     /\ last'.op \in {"insert", "update", "remove"}
                     /\ last'.arg.pid = p /\ last'.arg.v = v
@@ -99,7 +126,11 @@ MapStep == [][\A p \in PIDs, v \in VPs :
 Effect == [][/\ (last'.op \in {"insert", "update"} /\ last'.res = "ok") =>
                     tbl'[last'.arg.pid][last'.arg.v] = [pa |-> last'.arg.pa, dev |-> last'.arg.dev]
              /\ (last'.op = "remove" /\ last'.res = "ok") => tbl'[last'.arg.pid][last'.arg.v] = NoPage
-             /\ (last'.op \in {"find", "reverselookup", "ckpt"} \/ last'.free) => tbl' = tbl]_vars
+             /\ (last'.op \in {"find", "reverselookup", "ckpt", "save"} \/ last'.free) => tbl' = tbl]_vars
+
+(* a restore makes the table equal to the saved contents; only a save changes the snapshot *)
+RestoreExact == [][/\ last'.op \in Restores => (snap # NoSnap /\ tbl' = snap /\ snap' = snap)
+                   /\ snap' # snap => (last'.op = "save" /\ snap' = tbl)]_vars
 
 (* find agrees with the map *)
 FindAgrees == [][last'.op = "find" =>
